@@ -19,13 +19,14 @@ CONSTANTS Deviations,   \* subset of {"noRestore", "addsKey", "bakeUnits", "stal
 
 (* caller-owned objects: content is constant, only the parts above change.
    kind "dict" is a plain dict passed to expand(), "Config" a Config instance created once and reused *)
-Objs == {"m1", "m2", "m3", "m4", "m5", "s1", "s2", "s3", "s4", "s5", "s6"}
+Objs == {"m1", "m2", "m3", "m4", "m5", "m6", "s1", "s2", "s3", "s4", "s5", "s6"}
 Content ==
   [ m1 |-> [type |-> "markup", kind |-> "dict",   text |-> "T",      table |-> "MS1", opt |-> "A", cache |-> "none", bem |-> FALSE],
     m2 |-> [type |-> "markup", kind |-> "dict",   text |-> "absent", table |-> "MS0", opt |-> "A", cache |-> "none", bem |-> TRUE ],
     m3 |-> [type |-> "markup", kind |-> "Config", text |-> "T",      table |-> "MS1", opt |-> "A", cache |-> "none", bem |-> FALSE],
     m4 |-> [type |-> "markup", kind |-> "dict",   text |-> "absent", table |-> "MS0", opt |-> "A", cache |-> "none", bem |-> FALSE],
     m5 |-> [type |-> "markup", kind |-> "dict",   text |-> "T",      table |-> "MS0", opt |-> "B", cache |-> "none", bem |-> TRUE ],
+    m6 |-> [type |-> "markup", kind |-> "dict",   text |-> "absent", table |-> "MS0", opt |-> "C", cache |-> "none", bem |-> FALSE],
     s1 |-> [type |-> "css",    kind |-> "dict",   text |-> "absent", table |-> "S0",  opt |-> "A", cache |-> "k1",   bem |-> FALSE],
     s2 |-> [type |-> "css",    kind |-> "dict",   text |-> "absent", table |-> "S0",  opt |-> "B", cache |-> "k1",   bem |-> FALSE],
     s3 |-> [type |-> "css",    kind |-> "dict",   text |-> "absent", table |-> "S1",  opt |-> "A", cache |-> "k1",   bem |-> FALSE],
@@ -33,7 +34,7 @@ Content ==
     s5 |-> [type |-> "css",    kind |-> "Config", text |-> "absent", table |-> "S0",  opt |-> "A", cache |-> "k2",   bem |-> FALSE],
     s6 |-> [type |-> "css",    kind |-> "dict",   text |-> "absent", table |-> "S2",  opt |-> "B", cache |-> "k1",   bem |-> FALSE] ]
 Caches == {"k1", "k2"}
-MarkupAbbrs == {"ok", "wrap", "badparse", "badsnippet", "bem"}      \* "badsnippet" fails while snippets are resolved iff the table is MS1
+MarkupAbbrs == {"ok", "wrap", "badparse", "badsnippet", "bem", "var"}          \* "var": a snippet that reads a variable of the configuration      \* "badsnippet" fails while snippets are resolved iff the table is MS1
 CssAbbrs == {"num", "tab", "plain", "badparse"}                     \* "num": a snippet supplies a number that takes the caller's unit
 
 VARIABLES userText, cache, live, pc, cur, seenText, results, ncalls
